@@ -963,6 +963,36 @@ def scenario(rng, profile):
         s.onClose(True)
         R.step(dict(ev="lost"))
     rnd_api()
+    if profile == "c06" and rng.random() < 0.35:
+        # a second transport connection for the same session object: everything counted per connection starts afresh
+        R.tr = Transport(R, max_size=2000)
+        R.tr.sync_close = rng.random() < 0.25
+        R.lost_flag = False
+        do_open()
+        if rng.random() < 0.9:
+            R.user["welcome"] = "ok"
+            rx(message.Welcome(4321, ROLES), dict(t="welcome"))
+        for _ in range(rng.randint(1, 6)):
+            if R.lost_flag:
+                break
+            r = rng.random()
+            if r < 0.35:
+                rnd_api()
+            elif r < 0.55:
+                api("leave", s.leave)
+            elif r < 0.75:
+                rx(message.Goodbye(), dict(t="goodbye"))
+            elif r < 0.85:
+                rnd_router(True)
+            else:
+                R.lost_flag = True
+                s.onClose(rng.random() < 0.5)
+                R.step(dict(ev="lost"))
+        if not R.lost_flag:
+            R.lost_flag = True
+            s.onClose(True)
+            R.step(dict(ev="lost"))
+        rnd_api()
     return R.trace, R.user_errors
 
 
